@@ -189,6 +189,42 @@ def t_teststatistic(T):
                 T.cover(eng, f"{key}#cover@{ts}", hy)
 
 
+def t_teststatistic_history(T):
+    """a second teststatistic() call on the SAME calculator with a different POI value uses that value's own Asimov statistic:
+    nothing from the first call may be reused (the calculator is re-used by callers that scan the POI)"""
+    key = f"{CALC}::AsymptoticCalculator.teststatistic"
+    for ts in STATS:
+        eng = T.engine(policy())
+
+        def run():
+            calc, a = make_calc(eng, ts, "normal")
+            p1, p2 = eng.obj("poi_1"), eng.obj("poi_2")
+            t1 = eng.call(eng.getattr(calc, "teststatistic"), [p1], {})
+            n1 = len(eng.path.calls)
+            t2 = eng.call(eng.getattr(calc, "teststatistic"), [p2], {})
+            return {"calc": calc, "a": a, "p2": p2, "t2": t2, "n1": n1}
+        results = eng.explore(run)
+        T.absorb(eng, results)
+        for k, r in enumerate(results):
+            pid = f"@{ts},second-call,path{k}"
+            if r.kind != "return":
+                T.fail(f"{key}#no-raise{pid}", str(r.exc_name), kind="raises")
+                continue
+            o = r.value
+            second = [c for c in r.path.calls[o["n1"]:] if isinstance(c.target, str) and (c.target.startswith(TS + "::") or c.target == f"{CALC}::generate_asimov_data")]
+            stat = [c for c in second if c.target.startswith(TS + "::")]
+            asim = [c for c in second if c.target == f"{CALC}::generate_asimov_data"]
+            if len(stat) != 2 or len(asim) != 1:
+                T.fail(f"{key}#fwd.call-structure{pid}", f"second call: {len(stat)} statistic calls, {len(asim)} asimov calls (results of the first call reused)", kind="forwarding", history=True, test_stat=ts)
+                continue
+            T.ok(f"{key}#fwd.call-structure{pid}", kind="forwarding")
+            q, qA = stat[0].stat, stat[1].stat
+            hy = r.path.hyps() + [qA > 0]
+            T.ob_path(eng, f"{key}#fwd.asimov-call-args{pid}", r, eng.veq([stat[1].arg(0, None, None), stat[1].arg(1, None, None)], [o["p2"], asim[0].data]), kind="forwarding")
+            T.ob(eng, f"{key}#post.value{pid}", hy, eng.veq(o["t2"], spec_teststat(ts, q, qA)), inputs={"q": q, "qA": qA}, test_stat=ts, history=True)
+            T.ob(eng, f"{key}#post.sqrtqmuA-cached{pid}", hy, eng.veq(o["calc"].attrs.get("sqrtqmuA_v"), Sqrt(qA)), inputs={"q": q, "qA": qA}, test_stat=ts, history=True)
+
+
 def t_distributions(T):
     key = f"{CALC}::AsymptoticCalculator.distributions"
     for ts in STATS:
@@ -351,7 +387,7 @@ def t_pvalues(T):
 
 
 def tasks(tier):
-    return [("__init__", t_init), ("teststatistic", t_teststatistic), ("distributions", t_distributions),
+    return [("__init__", t_init), ("teststatistic", t_teststatistic), ("teststatistic.history", t_teststatistic_history), ("distributions", t_distributions),
             ("AsymptoticTestStatDistribution", t_distribution_class), ("pvalues", t_pvalues)]
 
 
@@ -394,10 +430,69 @@ def replay(r):
         return {"reproduced": bad, "got": a, "oracle": b, "inputs": {"shift": shift, "value": v, "nsigma": n, "cutoff": cutoff}}
     q, qA = val(model.get("q")), val(model.get("qA"))
     ts, base = meta.get("test_stat"), meta.get("base", "normal")
+    if ts is None:
+        return None
     if q is None and qA is not None:
         q = qA
-    if q is None or qA is None or ts is None or qA <= 0 or q < 0:
-        return None
+    grid = []
+    if q is not None and qA is not None and qA > 0 and q >= 0 and math.sqrt(q) < 37 and math.sqrt(qA) < 37:
+        grid.append((q, qA))
+    # fixed grid over the (q, q_A) plane with representable tails, including far tails and the qtilde q > q_A region
+    for g_q in (0.0, 1e-3, 1.0, 4.0, 25.0, 100.0, 225.0, 400.0):
+        for g_qA in (1e-3, 0.25, 1.0, 9.0, 36.0, 100.0):
+            arg = (g_q + g_qA) / (2 * math.sqrt(g_qA)) if (ts == "qtilde" and g_q > g_qA) else math.sqrt(g_q)
+            if arg < 30:
+                grid.append((g_q, g_qA))
+    if meta.get("history"):
+        return _replay_history(C, U, np, ts)
+    allbad = {}
+    for (q, qA) in grid:
+        rep = _replay_point(C, U, np, norm, math, ts, base, q, qA)
+        if rep:
+            allbad[f"q={q},qA={qA}"] = rep
+            if len(allbad) >= 3:
+                break
+    return {"reproduced": bool(allbad), "test_stat": ts, "base": base, "disagreements": allbad}
+
+
+def _replay_history(C, U, np, ts):
+    """two teststatistic() calls with different POI values on one calculator: the second must use its own Asimov statistic"""
+    table = {1.0: (4.0, 9.0), 2.0: (16.0, 25.0)}
+    calls = []
+
+    def stat(poi, data, *a, **k):
+        calls.append((poi, "asimov" if isinstance(data, str) else "obs"))
+        q, qA = table[poi]
+        return np.asarray(qA if isinstance(data, str) else q), (np.asarray([1.0]), np.asarray([2.0]))
+    saved = (U.get_test_stat, C.generate_asimov_data)
+    U.get_test_stat = lambda name_: stat
+    C.generate_asimov_data = lambda *a, **k: ("ASIMOV", np.asarray([1.0]))
+
+    class Cfg:
+        poi_index = 0
+        def suggested_init(self): return [1.0]
+        def suggested_bounds(self): return [(0, 10)]
+        def suggested_fixed(self): return [False]
+
+    class Pdf:
+        config = Cfg()
+    try:
+        calc = C.AsymptoticCalculator([1.0], Pdf(), test_stat=ts)
+        calc.teststatistic(1.0)
+        t2 = float(calc.teststatistic(2.0))
+        sA = float(calc.sqrtqmuA_v)
+    finally:
+        U.get_test_stat, C.generate_asimov_data = saved
+    want = 4.0 - 5.0
+    bad = {}
+    if abs(t2 - want) > 1e-9:
+        bad["second teststatistic"] = {"got": t2, "oracle": want}
+    if abs(sA - 5.0) > 1e-9:
+        bad["sqrt(q_A) after second call"] = {"got": sA, "oracle": 5.0}
+    return {"reproduced": bool(bad), "history": "teststatistic(1.0) then teststatistic(2.0) on one calculator; (q, q_A) = (4, 9) then (16, 25)", "disagreements": bad}
+
+
+def _replay_point(C, U, np, norm, math, ts, base, q, qA):
     seq = iter([q, qA])
     marker = (np.asarray([1.0]), np.asarray([2.0]))
 
@@ -425,11 +520,14 @@ def replay(r):
         U.get_test_stat, C.generate_asimov_data = saved
     sq, sqA = math.sqrt(q), math.sqrt(qA)
     if ts in ("q", "q0") or q <= qA:
-        w_sb, w_b, w_t = 1 - norm.cdf(sq), 1 - norm.cdf(sq - sqA), sq - sqA
+        w_sb, w_b, w_t = norm.sf(sq), norm.sf(sq - sqA), sq - sqA
     else:
-        w_sb, w_b, w_t = 1 - norm.cdf((q + qA) / (2 * sqA)), 1 - norm.cdf((q - qA) / (2 * sqA)), (q - qA) / (2 * sqA)
-    diffs = {"teststat": abs(float(t) - w_t), "CLsb": abs(CLsb - w_sb), "CLb": abs(CLb - w_b), "CLs": abs(CLs - w_sb / w_b) if w_b > 0 else 0.0,
-             "sqrtqmuA": abs(float(calc.sqrtqmuA_v) - sqA)}
+        w_sb, w_b, w_t = norm.sf((q + qA) / (2 * sqA)), norm.sf((q - qA) / (2 * sqA)), (q - qA) / (2 * sqA)
+
+    def rel(a, b):
+        return abs(a - b) / max(abs(b), 1e-300) if b != 0 else abs(a)
+    diffs = {"teststat": abs(float(t) - w_t), "CLsb": rel(CLsb, w_sb) * 1e-3, "CLb": rel(CLb, w_b) * 1e-3,
+             "CLs": (rel(CLs, w_sb / w_b) * 1e-3) if w_b > 0 else 0.0, "sqrtqmuA": abs(float(calc.sqrtqmuA_v) - sqA)}
     ns = [2, 1, 0, -1, -2]
     for j, n in enumerate(ns):
         N = max(n, -sqA) if base == "clipped_normal" else n
@@ -438,4 +536,4 @@ def replay(r):
     diffs["band-monotone"] = 0.0 if all(band[j] <= band[j + 1] + 1e-15 for j in range(4)) else 1.0
     diffs["ordering"] = 0.0 if (0 <= CLsb <= CLb + 1e-15 <= 1 + 1e-15 and 0 <= CLs <= 1 + 1e-12) else 1.0
     bad = {k: v for k, v in diffs.items() if v > 1e-9}
-    return {"reproduced": bool(bad), "inputs": {"q": q, "qA": qA, "test_stat": ts, "base": base}, "disagreements": bad}
+    return bad
